@@ -236,8 +236,9 @@ package ledger
 // that block: the block is read from STORAGE with its transactions (a cached copy may
 // carry block ids stamped by an earlier confirmation), and every record whose block id
 // differs is rewritten, in the caller's batch, with the joining block's id (C04).
+// (C18 too: a snapshot dates a write by the block its record names.)
 //@ func Ledger.correctTxsBlockid
-//@   property C04
+//@   property C04 C18
 //@   local tx *xldgpb.Transaction
 //@   at Ledger.queryBlock assert reads_the_stored_block_with_its_transactions: bytesEq($0, blockID) && $1
 //@   nocall Ledger.QueryBlock not_from_the_block_cache
